@@ -97,16 +97,15 @@ type hist struct {
 	gasTip int64
 
 	prev    *legacypool.VerifSnapshot // snapshot after the previous operation (nil: unknown)
-	taint   map[common.Address]bool   // accounts whose pending list carries a gap left by a nonce regression
 	dead    bool                      // a panic was caught; pool state is unusable
 	stress  bool                      // concurrent history
 	verbose bool
 
-	reinjectSlots int                     // slots of the transactions the last head change had to re-inject (0: none)
-	pricedTaint   bool                    // the stale counter drifted after a duplicate heap entry
-	dupRisk       bool                    // this Add re-added a transaction whose stale heap entry still exists
-	deferred      map[common.Address]bool // promotion deferred by an eviction during re-injection
-	everRegressed map[common.Address]bool // stress mode: some reorg lowered the account's state nonce
+	reinjectSlots int                                // slots of the transactions the last head change had to re-inject (0: none)
+	lost          map[common.Hash]*types.Transaction // reorged-out txs of the current reorg op (stress: of all reorgs)
+	dupRisk       bool                               // this Add re-added a transaction whose stale heap entry still exists
+	deferred      map[common.Address]bool            // promotion deferred by an eviction during re-injection
+	everRegressed map[common.Address]bool            // stress mode: some reorg lowered the account's state nonce
 
 	// shape flags of this history (signature)
 	fEvict, fReplace, fResurrect, fDemote, fTruncP, fTruncQ, fSetCode, fDelegRej, fFundsRej, fMulti, fGasDrop bool
@@ -151,7 +150,7 @@ func newHist(e *env, idx int, stream string) *hist {
 }
 
 func newHistWithGenesis(e *env, idx int, stream string, genAcct func(i int) acct) *hist {
-	h := &hist{e: e, r: e.r, idx: idx, rng: e.r.Rand(stream, idx), gasTip: 1, taint: map[common.Address]bool{}, deferred: map[common.Address]bool{}, everRegressed: map[common.Address]bool{}}
+	h := &hist{e: e, r: e.r, idx: idx, rng: e.r.Rand(stream, idx), gasTip: 1, lost: map[common.Hash]*types.Transaction{}, deferred: map[common.Address]bool{}, everRegressed: map[common.Address]bool{}}
 	gen := map[common.Address]acct{}
 	for i := 0; i < nAccounts; i++ {
 		if genAcct != nil {
@@ -413,7 +412,7 @@ func (h *hist) genFlood(rng *rand.Rand) []*types.Transaction {
 
 // buildChild builds a child block of parent: a random nonce-ordered subset of the candidate
 // transactions is included, the account state is advanced accordingly and then perturbed
-// (balance changes, nonce jumps by transactions the pool never saw, delegation changes).
+// (balance changes, delegation changes); transactions the pool never saw are included as well.
 func (h *hist) buildChild(rng *rand.Rand, parent *blk, cands []*types.Transaction) *blk {
 	e := h.e
 	st := copyState(parent.state)
@@ -461,9 +460,7 @@ func (h *hist) buildChild(rng *rand.Rand, parent *blk, cands []*types.Transactio
 		}
 		if x := rng.Intn(100); x < 14 {
 			s.Balance = big.NewInt(pick(rng, balLadder))
-		} else if x < 18 {
-			s.Nonce += 1 + uint64(rng.Intn(2))
-		} else if x < 22 && i >= 2 {
+		} else if x < 18 && i >= 2 {
 			s.Delegated = !s.Delegated
 		}
 		st[a] = s
@@ -550,6 +547,14 @@ func (h *hist) reorg(rng *rand.Rand, view *legacypool.VerifSnapshot) (old, new_ 
 			lost[tx.Hash()] = tx
 		}
 	}
+	h.mu.Lock()
+	if !h.stress {
+		h.lost = map[common.Hash]*types.Transaction{}
+	}
+	for hash, tx := range lost {
+		h.lost[hash] = tx
+	}
+	h.mu.Unlock()
 	for a, st := range tip.state {
 		if st.Nonce < old.state[a].Nonce {
 			h.mu.Lock()
@@ -786,8 +791,8 @@ func run(r *vrt.Run) {
 	nStress := r.N(60, 3000)
 	stressAdds := 12
 	if r.Race() {
-		nSeq = r.N(220, 12000)
-		nStress = r.N(40, 1500)
+		nSeq = r.N(150, 12000)
+		nStress = r.N(30, 1500)
 	}
 	if v := os.Getenv("C41_HIST"); v != "" { // debugging aid: replay one sequential history verbosely
 		i, _ := strconv.Atoi(v)
